@@ -31,6 +31,8 @@ import (
 	"sort"
 	"strconv"
 	"strings"
+	"sync"
+	"time"
 
 	webp "github.com/deepteams/webp"
 	"github.com/deepteams/webp/verifapi"
@@ -261,11 +263,13 @@ func optEmptyImage(ri, ti int) image.Image {
 func emptyBoundsCheck(ri, ti, oi int) (bad, detail string) {
 	img := optEmptyImage(ri, ti)
 	var buf bytes.Buffer
-	cls, pm := guard(func() string { return optErrClass(webp.Encode(&buf, img, optEmptyOpts[oi]())) })
+	cls := watchedEncode(fmt.Sprintf("empty %d %d", ri, oi), func() string { return optErrClass(webp.Encode(&buf, img, optEmptyOpts[oi]())) })
 	where := fmt.Sprintf("Encode(%s with Bounds %v, options #%d)", optEmptyTypes[ti], optEmptyRects[ri], oi)
 	switch {
-	case cls == "panic":
-		return "panic:" + panicClass(pm), where + " panicked: " + pm
+	case strings.HasPrefix(cls, "panic:"):
+		return cls, where + " panicked: " + cls[len("panic:"):]
+	case cls == "hang":
+		return "hang", fmt.Sprintf("%s did not return within %v (an empty image must be rejected before touching pixels)", where, optWatchdog)
 	case cls == "ok":
 		return "accepted", fmt.Sprintf("%s returned nil for an empty image and wrote %d bytes", where, buf.Len())
 	case cls != "err dimsEmpty":
@@ -636,15 +640,55 @@ func goOptFront(c optCase) (line string, real bool) {
 	}
 	dimsOK := c.w >= 1 && c.h >= 1 && c.w <= 16383 && c.h <= 16383
 	if wNil || iNil || !valid || !dimsOK {
-		var err error
-		if wNil {
-			err = webp.Encode(nil, img, c.o)
-		} else {
-			err = webp.Encode(&nopWriter{}, img, c.o)
-		}
-		return optErrClass(err), true
+		// must reject before touching pixels: watched, so that an implementation that walks an
+		// "empty" 16383x16383 image instead is reported as a hang rather than stalling the suite
+		key := fmt.Sprintf("front %d %d %v", c.w, c.h, c.o != nil && c.o.Lossless)
+		return watchedEncode(key, func() string {
+			if wNil {
+				return optErrClass(webp.Encode(nil, img, c.o))
+			}
+			return optErrClass(webp.Encode(&nopWriter{}, img, c.o))
+		}), true
 	}
 	return "ok", false
+}
+
+// watchedEncode runs a real Encode call that is expected to return at once (it must reject its
+// arguments before touching pixels) under a recover guard and a watchdog.  Result: the canonical
+// line, "panic:<class>", or "hang".  A hung call keeps running in its goroutine (it cannot be
+// cancelled), so every later call with the same key is answered "hang" without running it.
+var (
+	optHangMu   sync.Mutex
+	optHangKeys = map[string]bool{}
+	optWatchdog = 10 * time.Second
+)
+
+func watchedEncode(key string, f func() string) string {
+	optHangMu.Lock()
+	hung := optHangKeys[key]
+	optHangMu.Unlock()
+	if hung {
+		return "hang"
+	}
+	done := make(chan string, 1)
+	go func() {
+		s, pm := guard(f)
+		if s == "panic" {
+			s = "panic:" + panicClass(pm)
+		}
+		done <- s
+	}()
+	t := time.NewTimer(optWatchdog)
+	defer t.Stop()
+	select {
+	case s := <-done:
+		return s
+	case <-t.C:
+		optHangMu.Lock()
+		optHangKeys[key] = true
+		optHangMu.Unlock()
+		return "hang"
+	}
 }
 
 func goOptDoc() (string, error) {
@@ -1082,9 +1126,17 @@ func suiteOpts(rep *Report) error {
 		fl := fmt.Sprintf("optfront %s %d %d %s", enc, c.w, c.h, c.flags)
 		var real bool
 		g, pm := guard(func() string { s, r := goOptFront(c); real = r; return s })
+		if strings.HasPrefix(g, "panic:") { // from the watched real Encode
+			pm, g = g[len("panic:"):], "panic"
+		}
 		if g == "panic" {
 			rep.Add(Finding{Kind: "property", Property: "C20", Signature: "panic:Encode-front:" + panicClass(pm),
 				Detail: "webp.Encode panicked: " + pm, Input: map[string]any{"op": "optline", "line": fl}})
+		}
+		if g == "hang" {
+			rep.Add(Finding{Kind: "property", Property: "C20", Signature: "hang:Encode-front",
+				Detail: fmt.Sprintf("webp.Encode did not return within %v on arguments it must reject before touching pixels (image %dx%d, flags %s)", optWatchdog, c.w, c.h, c.flags),
+				Input:  map[string]any{"op": "optline", "line": fl}})
 		}
 		emit(fl, g, c.kind)
 		rep.Count("kind:" + c.kind)
